@@ -1,13 +1,47 @@
-"""C14 — Unification is sound and complete syntactic unification (bounded stand-in only; see bounded/c14.py).
+"""C14 — Unification is sound and complete syntactic unification.
 
-Run-time contract on the real functions evaluated over a bounded input family against an independent
-reference (symbolic truth-table model / Robinson unifier / equivalence laws).  Never counted as proved.
+Proof part (the two builtins, problog/engine_builtin.py): `=/2` and `\\=/2` are total functions of the outcome of ONE
+call unify_value(arg1, arg2, {}) - `=` answers exactly when it returns (with the unifier's instance on both sides), `\\=`
+succeeds exactly when it raises UnifyError, and nothing else escapes - so `X \\= Y` succeeds exactly when `X = Y` fails,
+for all terms.  unify_value itself is an ASSUMED contract here (a deterministic partial function of its two arguments:
+the uninterpreted predicate `unifiable` and function `mgu_inst`); that it computes a most general unifier is the subject
+of the bounded stand-in (bounded/c14.py: reference Robinson unifier, all pairs of a core term set, clause-head
+matching).
 """
 from pyvc.dsl import *
 
 S = Spec("C14", "Unification is sound and complete syntactic unification")
 LEVEL = "exploration"
-S.unverified("everything: bounded run-time contract only")
+# uninterpreted symbols (the defining equations are trivial)
+S.recfun("unifiable", [("a", "Term"), ("b", "Term")], "Bool", "unifiable(a, b)")
+S.recfun("mgu_inst", [("a", "Term"), ("b", "Term")], "Term", "mgu_inst(a, b)")
+S.assume("unify_value(a, b, {}) is a deterministic partial function of (a, b): it raises UnifyError (or its subclass "
+         "OccursCheck) exactly when the uninterpreted predicate unifiable(a, b) is false, and otherwise returns "
+         "mgu_inst(a, b); checked against a reference unifier only by the bounded stand-in")
+
+S.fn("problog.engine_unify:unify_value", types={"value1": "Term", "value2": "Term", "source_values": "Dict[Int,Term]"},
+     returns="Term", trusted=True,
+     raises={"UnifyError": "not unifiable(value1, value2)"},
+     ensures=["unifiable(value1, value2)", "result == mgu_inst(value1, value2)"])
+
+S.fn("problog.engine_builtin:_builtin_eq", types={"arg1": "Term", "arg2": "Term"}, returns="List[Tuple[Term,Term]]",
+     ensures=["implies(unifiable(arg1, arg2), len(result) == 1 and result[0][0] == mgu_inst(arg1, arg2)"
+              " and result[0][1] == mgu_inst(arg1, arg2))",
+              "implies(not unifiable(arg1, arg2), len(result) == 0)"])
+
+S.fn("problog.engine_builtin:_builtin_neq", types={"arg1": "Term", "arg2": "Term"}, returns="Bool",
+     ensures=["result == (not unifiable(arg1, arg2))"])
+
+
+def neq_is_the_complement_of_eq(a: "Term", b: "Term"):
+    """X \\= Y succeeds exactly when X = Y has no answer."""
+    assert _builtin_neq(a, b) == (len(_builtin_eq(a, b)) == 0)
+
+
+S.lemma(neq_is_the_complement_of_eq, module="problog.engine_builtin")
+
+S.unverified("unify_value, unify_value_dc, unify_call_head, unify_call_return, substitute_*: bounded stand-in only "
+             "(mutable triangular substitutions over integer-coded variables)")
 
 
 def bounded(tier, seed):
